@@ -57,6 +57,8 @@ def make_values(shape, vk="f", base=1, nan=(), enc="coord"):
         out = np.empty(shape, dtype=np.float64)
     for k, pos in enumerate(itertools.product(*[range(s) for s in shape])):
         c = cell_value(pos, shape, base)
+        if enc == "nl":     # non-linear in the position along any axis (interpolation weights become visible)
+            c = ((k * k * 3 + k) % 19) + base + (0.25 * (k % 5) if vk == "f" else 0)
         if enc == "small":
             c = (2 + k + base % 3) if vk == "i" else (1.25 + 0.125 * k + (base % 4) * 0.03125)   # never 1: pow(1, nan) == 1
         if vk == "O":
